@@ -16,6 +16,7 @@ mis-delivery'):
  R7 drop guard: OrphanhoodNotifier::disable() is reachable only after the awaited response arrived.
 Not decided: interleavings as such; the bit arithmetic of StreamIdSet (allocate sets the bit free clears); server ordering.
 """
+from ..inline import inline_view
 from ..mir import AnchorLost
 from ..util import df_of, fn_short, in_set, operand_path, path_last, backward_slice, field_writers, callers_keys, guard_across_yield, switch_on, switch_edges, yields
 
@@ -213,7 +214,7 @@ def r7(ctx, facts):
 
 
 def check(ctx):
-    facts = ctx.facts("default")
+    facts = inline_view(ctx.facts("default"))
     for fn in (r1_r2, r3_r4, r5, r6, r7):
         try:
             fn(ctx, facts)
